@@ -101,6 +101,7 @@ type gotMsg struct {
 	wire    int // bytes on the wire (type byte + data)
 	intact  bool
 	barrier bool
+	head    string // first bytes of the data, for messages
 }
 
 type closeInfo struct {
@@ -137,7 +138,11 @@ func classify(p *parser.Packet) (gotMsg, bool) {
 	if !p.IsBinary {
 		w++
 	}
-	return gotMsg{wire: w, intact: allA(p.Data)}, true
+	h := p.Data
+	if len(h) > 8 {
+		h = h[:8]
+	}
+	return gotMsg{wire: w, intact: allA(p.Data), head: fmt.Sprintf("%q binary=%v", h, p.IsBinary)}, true
 }
 
 func errString(err error) string {
